@@ -6,6 +6,13 @@ import os
 import re
 
 V = os.path.dirname(os.path.dirname(os.path.abspath(__file__)))
+sweep = {}
+sp = os.path.join(V, "seeded", "SWEEP.txt")
+if os.path.exists(sp):
+    for ln in open(sp):
+        parts = ln.rstrip("\n").split(" ", 2)
+        if len(parts) >= 2:
+            sweep[parts[0]] = (parts[1], parts[2] if len(parts) > 2 else "")
 rows = []
 for f in sorted(glob.glob(os.path.join(V, "seeded", "*", "meta.json"))):
     m = json.load(open(f))
@@ -20,6 +27,10 @@ for f in sorted(glob.glob(os.path.join(V, "seeded", "*", "meta.json"))):
     kind = "B" if first.startswith("bounded:") else ("D" if first else "-")
     if any(not o.startswith("bounded:") for o in ob):
         kind = "D" if all(not o.startswith("bounded:") for o in ob) else "D+B"
+    if d in sweep:  # latest run against the current tree and machinery (tools/seed_sweep.sh)
+        first = sweep[d][1]
+        kind = "B" if first.startswith("bounded:") else "D"
+        m["check"]["exit"] = sweep[d][0].replace("exit=", "")
     first = re.sub(r"\s+no-failing-input-found$", "", first)
     first = first.replace("|", "/")
     rows.append(f"| {d} | {notes.replace('|', '/')} | {m['confirmed']['tests_exit_patched']} | {m['check']['exit']} | {kind} | `{first[:120]}` |")
